@@ -254,6 +254,8 @@ pub struct ChildRun {
     pub status: String,
     /// full commit log of the workload's model (only with WL_C10: operation kinds and timestamps for the version model)
     pub model_commits: Vec<crate::model::Commit>,
+    /// the child's harness clock at the end of the run (for finite retention)
+    pub final_clock: u64,
 }
 
 /// Run `wl` on `case` inside `root` (which may already contain a recovered image) under the recorder.
@@ -287,8 +289,8 @@ pub fn run_child(case: &Case, root: &Path, scratch: &Path, faults: Option<&str>,
     }
     let trace = std::fs::read(&log).map(|d| parse_trace(&d, &root_s)).unwrap_or_default();
     match out {
-        Err(e) if e.kind() == std::io::ErrorKind::TimedOut => ChildRun { trace, commits: vec![], failed_writes: vec![], failed_commits: vec![], child_failure: None, status: e.to_string(), model_commits: vec![] },
-        Err(e) => ChildRun { trace, commits: vec![], failed_writes: vec![], failed_commits: vec![], child_failure: None, status: format!("spawn failed: {e}"), model_commits: vec![] },
+        Err(e) if e.kind() == std::io::ErrorKind::TimedOut => ChildRun { trace, commits: vec![], failed_writes: vec![], failed_commits: vec![], child_failure: None, status: e.to_string(), model_commits: vec![], final_clock: 0 },
+        Err(e) => ChildRun { trace, commits: vec![], failed_writes: vec![], failed_commits: vec![], child_failure: None, status: format!("spawn failed: {e}"), model_commits: vec![], final_clock: 0 },
         Ok(o) => {
             let text = String::from_utf8_lossy(&o.stdout).to_string();
             let line = text.lines().last().unwrap_or("");
@@ -299,7 +301,7 @@ pub fn run_child(case: &Case, root: &Path, scratch: &Path, faults: Option<&str>,
                     let child_failure = v.get("failure").and_then(|f| if f.is_null() { None } else { Some((f["class"].as_str().unwrap_or("").to_string(), f["msg"].as_str().unwrap_or("").to_string())) });
                     let failed_commits = serde_json::from_value(v.get("failed_commits").cloned().unwrap_or(json!([]))).unwrap_or_default();
                     let model_commits = serde_json::from_value(v.get("model_commits").cloned().unwrap_or(json!([]))).unwrap_or_default();
-                    ChildRun { trace, commits, failed_writes, failed_commits, child_failure, status: "ok".into(), model_commits }
+                    ChildRun { trace, commits, failed_writes, failed_commits, child_failure, status: "ok".into(), model_commits, final_clock: v.get("final_clock").and_then(|x| x.as_u64()).unwrap_or(0) }
                 }
                 _ => {
                     let err = String::from_utf8_lossy(&o.stderr);
@@ -308,7 +310,7 @@ pub fn run_child(case: &Case, root: &Path, scratch: &Path, faults: Option<&str>,
                         Some(i) => lines[i..(i + 2).min(lines.len())].join(" | "),
                         None => lines.iter().rev().take(2).cloned().collect::<Vec<_>>().join(" | "),
                     };
-                    ChildRun { trace, commits: vec![], failed_writes: vec![], failed_commits: vec![], child_failure: None, status: format!("child died ({:?}): {}", o.status, msg.chars().take(300).collect::<String>()), model_commits: vec![] }
+                    ChildRun { trace, commits: vec![], failed_writes: vec![], failed_commits: vec![], child_failure: None, status: format!("child died ({:?}): {}", o.status, msg.chars().take(300).collect::<String>()), model_commits: vec![], final_clock: 0 }
                 }
             }
         }
@@ -445,10 +447,11 @@ pub fn open_and_inspect(cfg: &Cfg, db: &Path, rt: &tokio::runtime::Runtime, f: &
 
 /// C10 on an open store: full-range histories (tombstones on/off, forward/backward) and get_at probes at, just below and
 /// just above every version timestamp of every key, against the version model after the first `h` commits.
-pub fn versioned_sweep_on(tree: &surrealkv::Tree, model: &crate::model::Model, h: usize, cfg: &Cfg, stats: &mut Stats) -> Result<(), (String, String)> {
+pub fn versioned_sweep_on(tree: &surrealkv::Tree, model: &crate::model::Model, h: usize, cfg: &Cfg, now: u64, stats: &mut Stats) -> Result<(), (String, String)> {
     use crate::vmodel;
     let txn = tree.begin_with_mode(surrealkv::Mode::ReadOnly).map_err(|e| ("begin-error".to_string(), format!("{e:?}")))?;
-    let now = 0u64; // retention is unlimited in this stream
+    // `now` = the workload's clock at its END: a version inside the retention window then was inside it at every earlier
+    // moment, so it is required on every image; older ones are optional
     for tomb in [false, true] {
         for rev in [false, true] {
             let q = vmodel::HistQuery { lo: vec![0u8], hi: vec![0xffu8; 9], tombstones: tomb, ts_range: None, limit: None, rev };
@@ -670,7 +673,7 @@ pub fn check_generation(
     salt: u32,
     gen_no: u32,
     known_f03: bool,
-) -> Result<(Vec<(usize, usize, FsState)>, Option<usize>), Failure> {
+) -> Result<(Vec<(usize, usize, FsState)>, (Option<usize>, Option<usize>)), Failure> {
     let marks = marks_of(&run.trace);
     let states = states_of(base_state, &run.commits);
     let ckeys: Vec<Vec<Vec<u8>>> = run.commits.iter().map(|c| c.iter().map(|w| w.0.clone()).collect()).collect();
@@ -687,6 +690,8 @@ pub fn check_generation(
     let mut overfull: Option<(usize, (usize, usize, FsState))> = None;
     let mut torn_candidates: Vec<(usize, usize, FsState)> = Vec::new();
     let mut wal_torn_candidates: Vec<(usize, usize, FsState)> = Vec::new();
+    // a power-loss image in which a value-log file exists but has lost (part of) its 31-byte header
+    let mut vlog_short_candidate: Option<(usize, usize, FsState)> = None;
     let mut pi = 0usize;
     let n = run.trace.len();
     let fail = |class: &str, msg: String, aux: serde_json::Value| Failure { class: class.into(), step: usize::MAX, msg, aux };
@@ -826,7 +831,7 @@ pub fn check_generation(
                                     break;
                                 }
                                 let mut st = Stats::default();
-                                match open_and_inspect(ctx.cfg, &img.join("db"), ctx.rt, &mut |tree| versioned_sweep_on(tree, &model, *h, ctx.cfg, &mut st)) {
+                                match open_and_inspect(ctx.cfg, &img.join("db"), ctx.rt, &mut |tree| versioned_sweep_on(tree, &model, *h, ctx.cfg, run.final_clock, &mut st)) {
                                     Ok(()) => {
                                         ok = true;
                                         for k in ["history_ge3", "get_at_non_latest", "history_entries"] {
@@ -937,6 +942,9 @@ pub fn check_generation(
                                 let n = cut(path, f);
                                 path.contains("wal/") && n < f.data.len() && n > f.synced + 7
                             });
+                            if fs.files.iter().any(|(path, f)| path.ends_with(".vlog") && cut(path, f) < 31) {
+                                vlog_short_candidate = Some((p, h, fs.after_cut(&cut)));
+                            }
                             if wal_payload_torn && wal_torn_candidates.len() < 64 {
                                 wal_torn_candidates.push((p, h, fs.after_cut(&cut)));
                             } else if torn_candidates.len() < 64 {
@@ -957,6 +965,14 @@ pub fn check_generation(
     if overfull_idx.is_some() {
         ctx.stats.inc("image_with_partly_flushed_recovery_offered_for_next_generation");
     }
+    let vlog_short_idx = vlog_short_candidate.map(|c| {
+        candidates.push(c);
+        candidates.len() - 1
+    });
+    if vlog_short_idx.is_some() {
+        ctx.stats.inc("image_with_headerless_value_log_file_offered_for_next_generation");
+    }
+    let special = (overfull_idx, vlog_short_idx);
     // ... and one image that lost bytes (chosen by salt) at the end
     if !wal_torn_candidates.is_empty() && (salt % 4 != 0 || torn_candidates.is_empty()) {
         let t = wal_torn_candidates.swap_remove(salt as usize % wal_torn_candidates.len());
@@ -970,7 +986,7 @@ pub fn check_generation(
     if let Some(f) = deferred_known {
         return Err(f);
     }
-    Ok((candidates, overfull_idx))
+    Ok((candidates, special))
 }
 
 fn diff_count(a: &BTreeMap<Vec<u8>, (usize, u64)>, b: &BTreeMap<Vec<u8>, (usize, u64)>) -> usize {
@@ -1058,13 +1074,20 @@ pub fn run_crash_case(case: &CrashCase, dir: &Path, judge: Judge) -> CaseResult 
     let mut failure = None;
     match r1 {
         Err(f) => failure = Some(f),
-        Ok((cands, overfull_idx)) => {
+        Ok((cands, (overfull_idx, vlog_short_idx))) => {
             // second generation: continue on a recovered image, crash again
             if !case.work2.is_empty() && !cands.is_empty() {
                 // second pick: the last candidate, which is a power-loss image that lost bytes whenever one exists;
                 // third pick: the image with an over-full WAL segment (recovery splits it), if there is one
                 let mut pick = vec![case.salt as usize % cands.len(), cands.len() - 1];
                 if let Some(i) = overfull_idx {
+                    if !pick.contains(&i) {
+                        pick.push(i);
+                    }
+                }
+                // fourth pick: a power-loss image with a value-log file that lost its header; the continuation then separates
+                // values and flushes twice, so that the file is written to and the log segments are released
+                if let Some(i) = vlog_short_idx {
                     if !pick.contains(&i) {
                         pick.push(i);
                     }
@@ -1086,6 +1109,21 @@ pub fn run_crash_case(case: &CrashCase, dir: &Path, judge: Judge) -> CaseResult 
                         continue;
                     }
                     let mut steps2 = case.work2.clone();
+                    if Some(*ci) == vlog_short_idx && gi >= 2 {
+                        let template = case.work.steps.iter().chain(case.work2.iter()).find_map(|s| if let Step::Txn { ws, .. } = s { Some(ws.clone()) } else { None });
+                        if let Some(ws) = template {
+                            let mk = |salt: u32| {
+                                let mut ws = ws.clone();
+                                for (n, w) in ws.iter_mut().enumerate() {
+                                    // class 4 = one byte above the separation threshold
+                                    w.op = WOp::Set(VSpec { cls: 4, raw: 0, tag: 0x0051_0000 ^ salt ^ n as u32 });
+                                }
+                                Step::Txn { ws, sync: true, wo: false }
+                            };
+                            steps2 = vec![mk(1), Step::FlushAll, mk(2), Step::FlushAll];
+                            ctx.stats.inc("second_generation_on_headerless_value_log_file");
+                        }
+                    }
                     if gi == 1 {
                         // continuing on an image that lost bytes: commit, rotate, commit, and no flush in between, so that a
                         // crash can fall between the rotation and the flush of the rotated memtable
@@ -1169,7 +1207,9 @@ pub fn crash_strategy(stride: u16, arena_full: bool) -> BoxedStrategy<CrashCase>
 
 /// Workloads of C10's crash stream: timestamped histories on a versioning-enabled store, no second generation.
 pub fn crash_strategy_c10(stride: u16, vindex: bool, vlog_heavy: bool) -> BoxedStrategy<CrashCase> {
-    let mut p = crate::props::c10_profile(Some(vindex), false);
+    // the value-log stream also runs with finite retention (50 / 500 under the harness clock): versions that leave the
+    // window are what makes value-log files obsolete while the index still has entries for them
+    let mut p = crate::props::c10_profile(Some(vindex), vlog_heavy);
     p.cfg.vlog = if vlog_heavy { Some(true) } else { None };
     p.steps = (10, 45);
     p.step.w = Weights { txn: 50, rotate: 4, flush_oldest: 7, flush_all: 8, compact: 8, reopen: 3, flush_wal: 3, ..Weights::default() };
@@ -1179,6 +1219,7 @@ pub fn crash_strategy_c10(stride: u16, vindex: bool, vlog_heavy: bool) -> BoxedS
         p.step.ops = OpWeights { set: 8, delete: 3, soft_delete: 1, replace: 6 };
         p.step.w.compact = 16;
         p.step.w.flush_all = 12;
+        p.step.w.advance_clock = 8;
         p.pool = (2, 5);
         p.steps = (20, 60);
     }
